@@ -118,6 +118,44 @@ def run_sequence(sc):
     return dict(meta=dict(tid=sc["tid"], sid=sc["sid"]), ev=ev)
 
 
+def concurrent(sc):
+    """CodegenConc schedules on the real code: process A creates a System (automatic regeneration) over a directory whose probe
+    model is stale for it; at A's point between writing and importing again, process B creates a System over the same
+    directory (fresh interpreter), with the same model definition as A (parallel workers of one checkout) or with another
+    one (two checkouts sharing the directory).  Recorded: which definition the code A ends up running computes."""
+    d = scratch_dir("cgc")
+    try:
+        pyc = os.path.join(d, "pycode")
+        err = make_base(pyc)
+        if err:
+            return dict(sid=sc["sid"], setup_error=err)
+        sa, sb = os.path.join(d, "a.json"), os.path.join(d, "b.json")
+        va = dict(INITIAL_STATE, e=2, v=2)                       # A's definition differs from the generated one (version 1)
+        vb = dict(va) if sc["same"] else dict(INITIAL_STATE, e=3, v=3)
+        json.dump(va, open(sa, "w"))
+        json.dump(vb, open(sb, "w"))
+        nested = dict(repo=REPO, verif=VERIF, pycode=pyc, state=sb, op="undill_auto")
+        ra = _step(dict(repo=REPO, verif=VERIF, pycode=pyc, state=sa, op="undill_auto", nested=nested))
+        ea, eb = codegen_step.expected_values(va), codegen_step.expected_values(vb)
+        rb = ra.get("nested_result") or {}
+
+        def runs(r, exp):
+            return bool(not r.get("raised") and all(abs(r.get(k, 1e9) - exp[k]) < 1e-9 for k in ("y0", "gy_at_init".replace("_at_init", ""))
+                                                    if k in r)) if r else False
+        def which(r):
+            if not r or r.get("raised"):
+                return "raised"
+            for name, exp in (("own_a", ea), ("b", eb)):
+                if abs(r.get("y0", 1e9) - exp["y0"]) < 1e-9:
+                    return name
+            return "other"
+        return dict(sid=sc["sid"], same=bool(sc["same"]), a_runs=which(ra), b_runs=("own_b" if which(rb) == "b" else which(rb)),
+                    a_md5_match=bool(ra.get("md5_loaded") == ra.get("md5_model")), a_raised=bool(ra.get("raised")),
+                    a_text=ra.get("raised_text"), nested_ran=bool(rb))
+    finally:
+        shutil.rmtree(d, ignore_errors=True)
+
+
 def determinism(sc):
     """Generate code twice for a set of shipped models into two directories, with different hash seeds and once serially,
     once through the process pool: the recorded checksum must be the model's; files that are not byte-identical are compared
